@@ -74,6 +74,8 @@ def sys_oracles(scn):
             out.append(so.StatsOracle())
         elif name == "uncontended":
             out.append(so.UncontendedOracle())
+        elif name == "admissible":
+            out.append(so.AdmissibilityOracle())
         elif name == "model":
             out.append(so.ModelOracle(scn["cfg"]))
         elif name == "policy":
